@@ -74,7 +74,7 @@ NONCOMM = ['sub', 'div', 'floordiv', 'mod', 'pow', 'lshift', 'rshift', 'lt', 'le
           [n for n in NAMED if n not in ('sumsqr', 'sqrsum', 'absdif', 'ring3')]
 UOPS = {'neg': 'UNeg', 'abs': 'UAbs'}
 NOPS = {'clip': 'NClip', 'wrap': 'NWrap', 'fold': 'NFold'}
-FNS = {'boom': 'FBoom', 'inc': 'FInc', 'dbl': 'FDbl', 'neg': 'FNeg', 'pair': 'FPair', 'even': 'FEven', 'lt3': 'FLt3', 'pos': 'FPos'}
+FNS = {'float': 'FFloat', 'abs': 'FAbs', 'wrap1': 'FWrap1', 'boom': 'FBoom', 'inc': 'FInc', 'dbl': 'FDbl', 'neg': 'FNeg', 'pair': 'FPair', 'even': 'FEven', 'lt3': 'FLt3', 'pos': 'FPos'}
 FKS = {'collect': 'KCollect', 'select': 'KSelect', 'reject': 'KReject'}
 
 
@@ -425,7 +425,7 @@ class Gen:
             return ['Plen', ['Pclump', p_, V(r.choice([vi(0), vf(0), ['b', 0]]))], n], True, n
         if k == 'Ppair':
             p, fin, mn = self.gen(r.choice(['int', 'num']), d - 1, 'str')
-            return ['Pfun', 'collect', 'pair', p], fin, mn
+            return ['Pfun', 'collect', r.choice(['pair', 'wrap1']), p], fin, mn
         if k == 'Pflatten':
             p, fin, mn = G(sort)
             if r.random() < 0.7:
@@ -445,11 +445,11 @@ class Gen:
             return ['Pconst', p, total, tol], fin, 1
         if k == 'Pcollect':
             p, fin, mn = G(sort)
-            return ['Pfun', 'collect', r.choice(['inc', 'dbl', 'neg']), p], fin, mn
+            return ['Pfun', 'collect', r.choice(['inc', 'dbl', 'neg', 'abs'] + (['float'] if sort in ('float', 'num') else [])), p], fin, mn
         if k == 'Pselect':
             p, fin, mn = G(sort if arith else sort, need_fin=True)
             if arith:
-                return ['Pfun', r.choice(['select', 'reject']), r.choice(['even', 'lt3', 'pos']), p], True, 0
+                return ['Pfun', r.choice(['select', 'reject']), r.choice(['even', 'lt3', 'pos', 'pos', 'float', 'abs']), p], True, 0
             return ['Plen', p, 3], True, min(3, mn)
         if k == 'Pwrap' or k == 'Pnarop':
             s = sort if sort != 'num' else r.choice(['int', 'float'])
@@ -736,6 +736,12 @@ def directed():
         ['Pslide', [I(1), I(2), I(3)], I(0), I(1), 0, 1, 3], ['Pslide', [I(1), I(2), I(3)], I(2), I(0), 0, 1, 3],
         ['Ptuple', [S([1, 2])], 0], ['Pbinop', 'mul', S([0, 1, 2]), I(0)], ['Pbinop', 'eq', S([0, 1]), FALSE],
     ]
+    # --- function arguments of every callable kind (class, builtin, partial, bound method, callable instance)
+    mixed = ['Pseq', [I(1), I(-2), I(0), V(vf(Fraction(5, 2)))], 1, 0]
+    for fname in ('float', 'abs', 'wrap1', 'inc', 'neg', 'dbl', 'pos'):
+        for kind in ('collect', 'select', 'reject'):
+            out += [['Pfun', kind, fname, mixed], ['Pfun', kind, fname, ['Pn', mixed, 2]], ['Pseq', [['Pfun', kind, fname, mixed], I(9)], 2, 0],
+                    ['Pbinop', 'add', ['Pfun', 'collect', fname, S([1, 2, 3])], I(1)] if fname != 'wrap1' else ['Pflatten', ['Pfun', kind, fname, mixed], I(1)]]
     # --- both ends of every range
     out += [
         ['Pdrop', S([1, 2, 3]), 3], ['Pdrop', S([1, 2, 3]), 4], ['Plen', S([1, 2, 3]), 3], ['Plen', S([1, 2, 3]), 4],
@@ -955,6 +961,13 @@ def correspond(ctx):
                     'correspondence', 'streams of one pattern differ (%s vs iter) for %s: %s vs %s' % (name, show(e), o[name], o['iter']),
                     signature='C13:streams_differ', found_input=True, theorem='streams_independent',
                     replay={'expr': e, 'show': show(e), 'iter': o['iter'], name: o[name]}))
+        # Pif is a FunctionStream: after an end caused by a BRANCH stream it answers again on HEAD (noted, not claimed)
+        for a_ in ([] if 'Pif' in kinds(e) else (o.get('after_end') or [])):
+            if a_[1] != 'stop' or a_[0]:
+                c.failures.append(Failure('correspondence', 'a stream that had ended does not stay ended when pulled again: %s gives %s' % (show(e), a_),
+                                          signature='C13:stream_restarts_after_end', found_input=True, theorem='run_eq_den',
+                                          replay={'expr': e, 'show': show(e), 'after_end': o['after_end'], 'iter': o['iter']}))
+                break
         if o.get('global_rng_touched'):
             c.failures.append(Failure('correspondence', 'a pattern whose randomness is entirely under Pseed used the GLOBAL generator: %s' % show(e),
                                       signature='C13:global_generator_used', found_input=True, theorem='seeded_same_sequence',
